@@ -450,6 +450,12 @@ class Driver:
         # re-creating a deleted collection exercises the store cache
         if self.dead_cols and self.rng.random() < 0.6:
             path, kind = self.dead_cols.pop()
+            if kind in ("calendar", "addressbook") and self.rng.random() < 0.5 and set(self.kinds) >= {"calendar", "addressbook"}:
+                # the same URL, this time with the other type
+                kind = "addressbook" if kind == "calendar" else "calendar"
+                self.count("recreated_with_other_type")
+                getattr(self, "dead_bodies", {}).pop(path, None)
+                self.pools.pop(path, None)
         else:
             path = self.new_colpath(kind)
         how = "auto"
